@@ -1,4 +1,4 @@
-CONSTANTS Families = {"one", "rsv"}  Bug = "RWAlways"  Emit = FALSE
+CONSTANTS Families = {"mini"}  Bug = "RWAlways"  Emit = FALSE
   TwoFlags = {}
   TwoSizes = {}
   ThreeSizes = {}
